@@ -478,3 +478,100 @@ Proof.
     + destruct (dtype_eqb _ _); reflexivity.
   - unfold close. destruct (is_closed s); reflexivity.
 Qed.
+
+(* ---- the spec's content conditions in the words of the property ------------------ *)
+Definition media_defect (sd : side) (t : dtype) (m : media) : Prop :=
+  m_ice m = false                                                          (* ICE credentials missing *)
+  \/ ((t = TAnswer \/ t = TPranswer) /\ m_dtls m <> Some RClient /\ m_dtls m <> Some RServer)  (* role undecided *)
+  \/ (sd = Remote /\ m_dtls m = None)                                      (* no DTLS role stated at all *)
+  \/ ((m_kind m = KAudio \/ m_kind m = KVideo) /\ m_mux m = false).        (* rtcp-mux missing *)
+
+Definition defective (sd : side) (d : desc) : Prop :=
+  exists m, In m (d_media d) /\ media_defect sd (d_type d) m.
+
+Definition mismatched (s : st) (sd : side) (d : desc) : Prop :=
+  (d_type d = TAnswer \/ d_type d = TPranswer) /\
+  forall o, offer_answered s sd = Some o -> sections d <> sections o.
+
+Lemma media_well_formed_false : forall sd t m,
+  media_well_formed sd t m = false <-> media_defect sd t m.
+Proof.
+  intros sd t [k mid ice dtls mux]. unfold media_well_formed, media_defect. cbn [m_ice m_dtls m_kind m_mux].
+  split.
+  - rewrite !andb_false_iff. intros [[[H|H]|H]|H].
+    + left. exact H.
+    + right. left. destruct t; cbn in H; try discriminate; (split; [auto|]);
+        destruct dtls as [[]|]; cbn in H; try discriminate; split; discriminate.
+    + right. right. left. destruct sd; [discriminate|]. split; [reflexivity|].
+      destruct dtls; [discriminate|reflexivity].
+    + right. right. right. destruct k; cbn in H; try discriminate; split; auto.
+  - intros [H|[[Ht [H1 H2]]|[[Hsd Hd]|[Hk Hm]]]].
+    + rewrite H. reflexivity.
+    + destruct ice; [|reflexivity]. destruct Ht as [Ht|Ht]; subst t; cbn;
+      destruct dtls as [[]|]; cbn; try reflexivity; try (exfalso; apply H1; reflexivity); exfalso; apply H2; reflexivity.
+    + subst sd dtls. destruct ice; [|reflexivity]. destruct t; cbn; reflexivity.
+    + subst mux. destruct ice; [|reflexivity].
+      destruct Hk as [Hk|Hk]; subst k; cbn; rewrite ?andb_false_r; reflexivity.
+Qed.
+
+Lemma well_formed_false : forall sd d, well_formed sd d = false <-> defective sd d.
+Proof.
+  intros sd d. unfold well_formed, defective. generalize (d_type d). intro t.
+  induction (d_media d) as [|m ms IH]; cbn [forallb In].
+  - split; [discriminate|]. intros [m [[] _]].
+  - rewrite andb_false_iff, IH, media_well_formed_false. split.
+    + intros [H|[m' [Hin H]]]; [exists m; auto|exists m'; auto].
+    + intros [m' [[E|Hin] H]]; [subst; left; exact H|right; exists m'; auto].
+Qed.
+
+Lemma answers_offer_false : forall s sd d, answers_offer s sd d = false <-> mismatched s sd d.
+Proof.
+  intros s sd d. unfold answers_offer, mismatched. destruct (d_type d); cbn [answer_like].
+  - split; [discriminate|]. intros [[H|H] _]; discriminate.
+  - destruct (offer_answered s sd) as [o|].
+    + split.
+      * intro H. split; [auto|]. intros o' E. inversion E; subst o'. intro Heq.
+        apply same_sections_eq in Heq. congruence.
+      * intros [_ H]. destruct (same_sections (sections d) (sections o)) eqn:E; [|reflexivity].
+        exfalso. apply (H o eq_refl). apply same_sections_eq. exact E.
+    + split; [|reflexivity]. intros _. split; [auto|]. intros o E. discriminate.
+  - destruct (offer_answered s sd) as [o|].
+    + split.
+      * intro H. split; [auto|]. intros o' E. inversion E; subst o'. intro Heq.
+        apply same_sections_eq in Heq. congruence.
+      * intros [_ H]. destruct (same_sections (sections d) (sections o)) eqn:E; [|reflexivity].
+        exfalso. apply (H o eq_refl). apply same_sections_eq. exact E.
+    + split; [|reflexivity]. intros _. split; [auto|]. intros o E. discriminate.
+  - split; [discriminate|]. intros [[H|H] _]; discriminate.
+Qed.
+
+(* the description a call applies, and on which side *)
+Definition applied (s : st) (o : op) : option (side * desc) :=
+  match o with
+  | SetLocal (Some d) _ => Some (Local, d)
+  | SetLocal None c => Some (Local, mkDesc (d_id c) (implicit_type (sig s)) (d_media c))
+  | SetRemote d => Some (Remote, d)
+  | _ => None
+  end.
+
+Lemma spec_applied : forall s o sd d, applied s o = Some (sd, d) -> spec s o = judge s sd d.
+Proof.
+  intros s o sd d. destruct o as [| |[d'|] c|d'|]; cbn; intro H; inversion H; subst; reflexivity.
+Qed.
+
+Theorem outcome_characterised : forall s o sd d, inv s -> in_alphabet o -> applied s o = Some (sd, d) ->
+  (snd (step s o) = InvalidState <-> jsep_next (sig s) sd (d_type d) = None) /\
+  (snd (step s o) = ValueErr <->
+     jsep_next (sig s) sd (d_type d) <> None /\ (defective sd d \/ mismatched s sd d)) /\
+  (snd (step s o) = Done <->
+     jsep_next (sig s) sd (d_type d) <> None /\ ~ defective sd d /\ ~ mismatched s sd d).
+Proof.
+  intros s o sd d I Ha Hap. destruct (refines_spec s o I Ha) as [H _]. rewrite H, (spec_applied s o sd d Hap).
+  unfold judge. destruct (jsep_next (sig s) sd (d_type d)) as [nxt|]; cbn [fst].
+  2: { repeat split; try discriminate; try reflexivity; intros [Hn _]; exfalso; apply Hn; reflexivity. }
+  rewrite <- well_formed_false, <- answers_offer_false.
+  destruct (well_formed sd d), (answers_offer s sd d); cbn [andb fst];
+    repeat split; try discriminate; try reflexivity; auto;
+    try (intros [_ [Hx|Hx]]; discriminate);
+    try (intros [_ [Hx Hy]]; exfalso; (apply Hx; reflexivity) || (apply Hy; reflexivity)).
+Qed.
